@@ -173,6 +173,8 @@ fn int_shape(name: &str) -> Option<(&'static str, Option<u64>, f64)> {
         "k2p32p65535" => ("4295032831", Some((1 << 32) + 65535), 4295032831.0),
         "k10p20" | "t10p20" => ("100000000000000000000", None, 1e20),
         "kfrac" | "tfrac" => ("1.0", None, 1.0),
+        "kfrac5" => ("1.5", None, 1.5),
+        "tfrac5" => ("1700000000.5", None, 1700000000.5),
         "kexp" => ("1e0", None, 1.0),
         "kneg" | "tneg" => ("-1", None, -1.0),
         "t2p53p1" => ("9007199254740993", Some((1 << 53) + 1), 9007199254740993.0),
@@ -203,6 +205,15 @@ fn unk_key(name: &str) -> Option<&'static str> {
         "p_kindx" => "kindx",
         "p_created_at_" => "created_at_",
         "p_contentx" => "contentx",
+        "l_comment" => "comment",
+        "l_context" => "context",
+        "l_keys" => "keys",
+        "l_kins" => "kins",
+        "l_tabs" => "tabs",
+        "l_ix" => "ix",
+        "l_sag" => "sag",
+        "l_pupkey" => "pupkey",
+        "l_created_by" => "created_by",
         "p_conten" => "conten",
         "p_ta" => "ta",
         "p_sigs" => "sigs",
@@ -604,8 +615,8 @@ fn concretise(case: &Value, line: &str) -> Result<Doc, String> {
             let tsn = &t[1..];
             let krej = matches!(k, "k65536" | "k99999" | "k2p32" | "k2p32p1" | "k2p32p65535" | "k10p20");
             let trej = matches!(t, "t2p64" | "t2p64p1" | "t10p20" | "t2p128");
-            let kmay = matches!(k, "kfrac" | "kexp" | "kneg");
-            let tmay = matches!(t, "tfrac" | "texp" | "tneg");
+            let kmay = matches!(k, "kfrac" | "kfrac5" | "kexp" | "kneg");
+            let tmay = matches!(t, "tfrac" | "tfrac5" | "texp" | "tneg");
             // name the member that decides the expectation
             if krej {
                 format!("kind={}", ks)
